@@ -5,23 +5,31 @@ from vlib import Case
 RULE = ("every adapter (callback_await / callback_await_alloc, make_promise, discard, future_conv, call_fn_future_awaiter) x outcome "
         "(value / exception / dropped promise) x timing (future constructed ready; resolved inside the init function before the "
         "registration; promise parked and resolved by a second thread under a controlled schedule = before / during / after the "
-        "registration; resolved later by the registering thread) x helper storage (heap / counting storage) x converter (returns / throws); "
-        "engine adapt = real threads, one runnable at a time, yield at every COCLS_VERIF_POINT; engine adseq = the same scenarios "
-        "without the controller on one thread; random, bursty, resolver-first and registrar-first schedules, thorough adds every "
-        "schedule prefix of length 11 for the two-thread configurations; non-trivial = valid configuration and (single-threaded timing, "
-        "or at least 2 thread switches in the executed trace); distinct = distinct (configuration, schedule)")
-SCOPE = ("callback_await/callback_await_alloc + callback_await_coro, future_with_cb/make_promise (heap and storage), discard, "
-         "future_conv_promise_base::operator<< + future_conv resume function (member-function converter), call_fn_future_awaiter, over "
-         "promise::claim/set/~promise, future::resolve, awaiter::subscribe_check_ready/resume_chain_lk, co_awaiter::await_ready/await_suspend")
-ASSUMPTIONS = ["one registration per future and one resolver (competing resolvers are C01); the source future has at most one subscriber",
+        "registration; resolved later by the registering thread) x helper storage (heap / counting storage / cocls::reusable_storage / "
+        "second of two trailer-tagged counting storages / cocls::reusable_storage_mtsafe) x future type (future<counted>, future<void>, "
+        "factory returning future<counted&>) x caller mode (plain thread / coro_queue active) x converter (all six future_conv "
+        "specialisations; returns / throws / resolves with an exception / declines / forwards the promise to a third thread) x optional "
+        "competing resolver on a third thread (value / exception / p(drop)); engine adapt* = real threads, one runnable at a time, "
+        "yield at every COCLS_VERIF_POINT; engine adseq* = the same scenarios without the controller on one fresh thread; random, bursty, "
+        "resolver-first and registrar-first schedules, thorough adds every schedule prefix of length 8-11 for the two-thread "
+        "configurations and every prefix of length 7 over three threads for the competitor; non-trivial = valid configuration and "
+        "(single-threaded timing, or at least 2 thread switches in the executed trace); distinct = distinct (engine, configuration, schedule)")
+SCOPE = ("callback_await/callback_await_alloc + callback_await_coro (value and void), future_with_cb/make_promise (heap and storage), "
+         "discard, future_conv_promise_base::operator<< + all future_conv resume functions, call_fn_future_awaiter, custom_allocator_base "
+         "operator new/delete with five storages, over promise::claim/set/p(drop)/~promise, future::resolve, future<T&> ready-made and "
+         "promise-resolved, awaiter::subscribe_check_ready/resume_chain_lk, co_awaiter::await_ready/await_suspend, suspend_point discard "
+         "in normal and coroutine mode")
+ASSUMPTIONS = ["one registration per future; at most two resolvers (the promise holder and one competitor); the source future has at most one subscriber",
                "interleaving at the granularity of the hook points, sequentially consistent (memory order is C03)",
-               "the registering code runs on an ordinary thread (coro_queue not active); callbacks read the future with value(), not wait()"]
+               "callbacks read the future with value(), not wait(); user callbacks other than callback_await's do not throw (they run inside noexcept resume functions)",
+               "per-case leak attribution by the harness's own new/delete balance (line 41) and the scenario counters (line 40); LeakSanitizer's exit report is switched off for this harness"]
 
 ADAPTERS = [0, 1, 2, 3, 4]
+TYPES = ["", "v", "r"]          # future<counted>, future<void>, factory returns future<counted&>
 
 
 def valid(ad, mode, stor):
-    if stor == 1 and ad > 1: return False
+    if stor != 0 and ad > 1: return False
     if ad == 1 and mode < 2: return False
     return True
 
@@ -30,80 +38,123 @@ def configs():
     out = []
     for ad in ADAPTERS:
         for mode in range(4):
-            for stor in (0, 1):
+            for stor in range(5):
                 if valid(ad, mode, stor):
                     out.append((ad, mode, stor))
     return out
 
 
-def mk(engine, name, ad, mode, stor, k, d, conv, sched, cbthrow=0):
+def mk(engine, name, ad, mode, stor, k, d, conv, sched, cbthrow=0, k2=None):
     ops = [[1, ad, mode, stor], [2, k, d]]
     if conv is not None:
-        ops.append([3, conv[0], conv[1]])
+        ops.append([3] + list(conv))
     if cbthrow:
         ops.append([4, 1])
-    if engine == "adapt":
+    if k2 is not None:
+        ops.append([5, k2[0], k2[1]])
+    if engine.startswith("adapt"):
         ops.append([9] + list(sched))
     return Case(engine, name, ops)
 
 
-def rand_sched(rng, L):
+def rand_conv(rng, ty, ad, always=False):
+    """[ckind, cdatum(, spec)]; spec 3 = the converter is handed the promise and may also resolve it with an exception (2),
+    decline (3: the outer future must complete as a broken promise) or forward it to thread 2 (4)"""
+    if ad != 3 and not (always or rng.random() < 0.1):
+        return None
+    spec = rng.choice([0, 3, 3] if ty == "v" else [0, 1, 2, 3, 3, 3])
+    if spec == 3:
+        return [rng.choice([0, 1, 2, 3, 3, 4, 4]), rng.randint(1, 50), 3]
+    cv = [rng.choice([0, 0, 1]), rng.randint(1, 50)]
+    return cv + [spec] if rng.random() < 0.8 else cv
+
+
+def nthreads(conv, k2):
+    return 3 if (k2 is not None or (conv is not None and conv[0] == 4)) else 2
+
+
+def rand_sched(rng, L, nthr=2):
     style = rng.random()
+    hi = nthr - 1
     if style < 0.45:
-        return [rng.randint(0, 1) for _ in range(L)]
+        return [rng.randint(0, hi) for _ in range(L)]
     if style < 0.7:     # bursts: one thread runs for a while (exposes the windows between two hook points)
         s = []
         while len(s) < L:
-            s += [rng.randint(0, 1)] * rng.randint(1, 5)
+            s += [rng.randint(0, hi)] * rng.randint(1, 5)
         return s[:L]
     if style < 0.85:    # resolver first, registrar late
         n = rng.randint(0, 8)
-        return [0] * n + [1] * (L - n)
-    n = rng.randint(0, L)   # registrar up to some point, then the resolver to the end
-    return [0] * n + [1] * rng.randint(1, 12) + [rng.randint(0, 1) for _ in range(4)]
+        return [0] * n + [rng.randint(1, hi) if hi > 1 else 1 for _ in range(L - n)]
+    n = rng.randint(0, L)   # registrar up to some point, then the resolver(s) to the end
+    return [0] * n + [1] * rng.randint(1, 12) + [rng.randint(0, hi) for _ in range(4)]
 
 
 def gen_ctl(seed, tier):
     rng = random.Random(seed * 1000003 + 1818)
     cases = []
     j = 0
-    # every single-threaded configuration once per outcome
+    # every single-threaded configuration once per outcome and value type; plain and coroutine-mode callers alternate
     for (ad, mode, stor) in configs():
         if mode == 2: continue
         for k in (0, 1, 2):
-            convs = [(0, rng.randint(1, 50)), (1, rng.randint(1, 50))] if ad == 3 else [None]
-            for cv in convs:
-                cases.append(mk("adapt", "s%d" % j, ad, mode, stor, k, rng.randint(1, 999), cv, [])); j += 1
+            for ty in TYPES:
+                if tier == "quick" and stor in (2, 3, 4) and ty != TYPES[(ad + mode + k + stor) % 3]: continue
+                co = "c" if (j % 2) else ""
+                cv = rand_conv(rng, ty, ad, True) if ad == 3 else None
+                cases.append(mk("adapt" + co + ty, "s%d" % j, ad, mode, stor, k, rng.randint(1, 999), cv,
+                                rand_sched(rng, 10, 3) if (cv and cv[0] == 4) else [])); j += 1
+                if ad == 3:      # every behaviour of the promise-passing converter for every timing and outcome
+                    for b in (2, 3, 4):
+                        cases.append(mk("adapt" + co + ty, "s%d" % j, ad, mode, stor, k, rng.randint(1, 999), [b, rng.randint(1, 50), 3],
+                                        rand_sched(rng, 10, 3) if b == 4 else [])); j += 1
     # callback_await with a callback that throws after doing its work: still exactly one invocation
     for mode in range(4):
-        for stor in (0, 1):
+        for stor in (0, 1, 3):
             for k in (0, 1, 2):
-                for r in range(1 if mode != 2 else 3):
-                    cases.append(mk("adapt", "t%d" % j, 0, mode, stor, k, rng.randint(1, 999), None,
-                                    rand_sched(rng, 14) if mode == 2 else [], cbthrow=1)); j += 1
-    n = 450 if tier == "quick" else 5000
+                ty = TYPES[(mode + stor + k) % 3]
+                cases.append(mk("adapt" + ty, "t%d" % j, 0, mode, stor, k, rng.randint(1, 999), None,
+                                rand_sched(rng, 14) if mode == 2 else [], cbthrow=1)); j += 1
+    n = 420 if tier == "quick" else 6000
     two = [c for c in configs() if c[1] == 2]
     for i in range(n):
         ad, mode, stor = two[i % len(two)] if rng.random() < 0.8 else rng.choice(two)
-        if rng.random() < 0.35: ad, stor = 3, 0     # the converter has the longest completion: more interleavings
+        if rng.random() < 0.3: ad, stor = 3, 0     # the converter has the longest completion: more interleavings
+        ty = rng.choice(TYPES)
+        co = rng.choice(["", "", "c"])
         k = rng.choice([0, 0, 1, 2])
-        cv = (rng.choice([0, 0, 1]), rng.randint(1, 50)) if (ad == 3 or rng.random() < 0.1) else None
-        cases.append(mk("adapt", "c%d" % i, ad, 2, stor, k, rng.randint(1, 999), cv, rand_sched(rng, rng.choice([0, 6, 12, 18, 26]))))
+        k2 = None
+        cv = rand_conv(rng, ty, ad)
+        if rng.random() < 0.3 and not (cv is not None and cv[0] == 4):   # competing resolver on a third thread
+            k2 = (rng.choice([0, 1, 2, 2]), rng.randint(1, 999))
+        cases.append(mk("adapt" + co + ty, "c%d" % i, ad, 2, stor, k, rng.randint(1, 999), cv,
+                        rand_sched(rng, rng.choice([0, 6, 12, 18, 26]), nthreads(cv, k2)), k2=k2))
     if tier != "quick":
         x = 0
         for (ad, mode, stor) in two:
+            if stor in (1, 2): continue
             for k in (0, 1, 2):
-                cvs = [(0, 7), (1, 9)] if ad == 3 else [None]
+                cvs = [(0, 7, 0), (1, 9, 3), (3, 4, 3), (4, 6, 3)] if ad == 3 else [None]
                 for cv in cvs:
                     L = 11 if ad == 3 else 8
                     for pre in itertools.product(range(2), repeat=L):
-                        if ad == 3 and k != 0 and cv[0] == 1 and pre[0] == 1: continue   # halves the least interesting family
-                        cases.append(mk("adapt", "x%d" % x, ad, 2, stor, k, 5, cv, pre)); x += 1
+                        if ad == 3 and k != 0 and cv[0] != 0 and pre[0] == 1: continue   # halves the least interesting families
+                        ty = TYPES[x % 3]
+                        cases.append(mk("adapt" + ty, "x%d" % x, ad, 2, stor, k, 5, cv, pre)); x += 1
+        # competitor: all schedule prefixes over three threads (3^7) for the short adapters
+        for ad in (0, 1, 4):
+            for (k, k2) in ((0, (2, 0)), (2, (0, 9)), (1, (0, 9))):
+                for pre in itertools.product(range(3), repeat=7):
+                    cases.append(mk("adapt", "y%d" % x, ad, 2, 0, k, 5, None, pre, k2=k2)); x += 1
     # malformed stream
     bad = [[[1, 1, 0, 0], [2, 0, 1]], [[1, 2, 2, 1], [2, 0, 1]], [[1, 7, 2, 0], [2, 0, 1]], [[2, 0, 1]], [[1, 0, 2, 0]],
-           [[1, 0, 4, 0], [2, 0, 1]], [[1, 0, 2, 0], [2, 3, 1]], [[1, 3, 2, 0], [2, 0, 1], [3, 2, 2]], [[1, 3, 2], [2, 0, 1]], []]
+           [[1, 0, 4, 0], [2, 0, 1]], [[1, 0, 2, 0], [2, 3, 1]], [[1, 3, 2, 0], [2, 0, 1], [3, 2, 2]], [[1, 3, 2], [2, 0, 1]], [],
+           [[1, 0, 2, 5], [2, 0, 1]], [[1, 0, 3, 0], [2, 0, 1], [5, 0, 1]], [[1, 0, 2, 0], [2, 0, 1], [5, 3, 1]],
+           [[1, 3, 2, 0], [2, 0, 1], [3, 0, 2, 4]], [[1, 3, 2, 0], [2, 0, 1], [3, 3, 2, 0]], [[1, 3, 2, 0], [2, 0, 1], [3, 2, 2]],
+           [[1, 3, 2, 0], [2, 0, 1], [3, 4, 2, 3], [5, 0, 1]], [[1, 3, 2, 0], [2, 0, 1], [3, 5, 2, 3]]]
     for b, ops in enumerate(bad):
         cases.append(Case("adapt", "m%d" % b, ops + [[9, 0, 1]]))
+    cases.append(Case("adaptv", "m90", [[1, 3, 2, 0], [2, 0, 1], [3, 0, 2, 1], [9, 0]]))
     return cases
 
 
@@ -111,16 +162,19 @@ def gen_seq(seed, tier):
     rng = random.Random(seed * 1000003 + 1819)
     cases = []
     j = 0
-    reps = 1 if tier == "quick" else 4
+    reps = 1 if tier == "quick" else 3
     for _ in range(reps):
         for (ad, mode, stor) in configs():
             for k in (0, 1, 2):
-                convs = [(0, rng.randint(1, 50)), (1, rng.randint(1, 50))] if ad == 3 else [None]
-                for cv in convs:
-                    cases.append(mk("adseq", "q%d" % j, ad, mode, stor, k, rng.randint(1, 999), cv, [])); j += 1
+                for ty in TYPES:
+                    if tier == "quick" and ty != TYPES[(ad + mode + k + stor + 1) % 3]: continue
+                    co = "c" if (j % 2) else ""
+                    cv = rand_conv(rng, ty, ad, True) if ad == 3 else None
+                    k2 = (rng.choice([0, 1, 2]), rng.randint(1, 99)) if (mode == 2 and rng.random() < 0.3 and not (cv and cv[0] == 4)) else None
+                    cases.append(mk("adseq" + co + ty, "q%d" % j, ad, mode, stor, k, rng.randint(1, 999), cv, [], k2=k2)); j += 1
     for mode in range(4):
         for k in (0, 1, 2):
-            cases.append(mk("adseq", "qt%d" % j, 0, mode, mode % 2, k, rng.randint(1, 999), None, [], cbthrow=1)); j += 1
+            cases.append(mk("adseq" + TYPES[(mode + k) % 3], "qt%d" % j, 0, mode, mode % 2, k, rng.randint(1, 999), None, [], cbthrow=1)); j += 1
     cases.append(Case("adseq", "qm2", [[1, 0, 0, 0], [2, 0, 1], [4, 2]]))
     cases.append(Case("adseq", "qm0", [[1, 1, 1, 0], [2, 0, 1]]))
     cases.append(Case("adseq", "qm1", [[1, 4, 0, 1], [2, 0, 1]]))
@@ -135,7 +189,7 @@ def nontrivial(case, model_obs):
     if model_obs and model_obs[0].strip() == "-1":
         return False
     mode = case.ops[0][2] if case.ops and len(case.ops[0]) == 4 else -1
-    if case.engine == "adseq" or mode != 2:
+    if case.engine.startswith("adseq") or mode != 2:
         return True
     tids = [l.split()[0] for l in model_obs if len(l.split()) == 2]
     return sum(1 for a, b in zip(tids, tids[1:]) if a != b) >= 2
@@ -154,8 +208,14 @@ def signature(case, impl_obs, model_obs):
         kind = "oracle"
         if any(o and o[0] == 4 and o[1:] == [1] for o in case.ops) and sum(1 for l in impl_obs if l.startswith("30 ")) == 2:
             kind = "throwing-callback-invoked-twice"
+        elif case.engine.endswith("r") and case.ops and len(case.ops[0]) == 4 and case.ops[0][2] == 0 and len(case.ops) > 1 and case.ops[1][:2] == [2, 0]:
+            kind = "ready-reference-future-read-as-value"
+        elif case.engine.endswith("v") and ad == 3 and len(case.ops) > 1 and case.ops[1][0] == 2 and case.ops[1][1] != 0:
+            kind = "void-source-exception-swallowed"
     return "adapter%s:%s" % (ad, kind)
 
 
-PARTS = [{"name": "ctl_adapt", "harness": "ctl_adapt.cpp", "gen": gen_ctl, "timeout_case": 10},
-         {"name": "seq_adapt", "harness": "ctl_adapt.cpp", "gen": gen_seq, "timeout_case": 10}]
+# leaks are attributed per case by the harness's own balance (line 41) and the counters (line 40), not by LeakSanitizer at exit
+ENV = {"ASAN_OPTIONS": "detect_leaks=0:abort_on_error=0:halt_on_error=1:exitcode=77"}
+PARTS = [{"name": "ctl_adapt", "harness": "ctl_adapt.cpp", "gen": gen_ctl, "timeout_case": 10, "env": ENV},
+         {"name": "seq_adapt", "harness": "ctl_adapt.cpp", "gen": gen_seq, "timeout_case": 10, "env": ENV}]
